@@ -66,6 +66,15 @@ func allChecks() []CheckSpec {
 						c.MaxPaths = 4000000
 						c.MaxWallS = 1200
 					}},
+				{Fn: "verifC11NilIsLast", Lemma: "the nil candidate is the last event of its cycle: on the real loop, gather goroutines and notifier, a host gatherer whose socket opening is held back until nothing else can move still announces its candidate before the cycle completes, with timers of the gathering path allowed to fire: the handler sees one candidate, then one nil",
+					Bounds: "one IPv4 interface, host candidates only, gate released as late as possible, 2 timer ticks available; schedules with <= 1 preemption and the first 3 free switches; a select with several ready cases is a choice point", MustReach: []string{"done"},
+					Cfg: func(c *HarnessCfg, tier int) {
+						c.GoPolicy = "explore"
+						c.ContextBound = 1
+						c.FreeChoiceBound = 3 + tier
+						c.MaxPaths = 2000000
+						c.MaxWallS = 1200
+					}},
 				{Fn: "verifC11Reselect", Lemma: "schedule exploration over the real notifier: one producer enqueues A, B, A (a value notified again after another one: a pair re-selected after a switch, a state re-entered) with a handler that yields inside: all three are delivered, in order; then a plain Close followed by a GracefulClose: the graceful one still waits for the running handler",
 					Bounds: "3 events on the state or the selected-pair stream, producer + drainer + harness, at most 2 (thorough 3) preemptions", MustReach: []string{"done"},
 					Cfg: func(c *HarnessCfg, tier int) {
@@ -93,7 +102,7 @@ func allChecks() []CheckSpec {
 						c.MaxWallS = 1500
 					}},
 				{Fn: "verifC11RestartDuringCycleWithCandidate", Lemma: "the same with one interface (the cycle opens a socket and publishes a host candidate through the real addCandidate): once Restart has returned and the superseded cycle wound down, no candidate of it is on record in the new generation, every announced candidate carries its own cycle's ufrag, and the socket it opened is closed",
-					Bounds: "one IPv4 interface, host candidates, Restart after 0..8 (thorough 0..12) fair hand-overs, context bound 1, first 4 (thorough 6) free switches explored; a select with several ready cases is a choice point", MustReach: []string{"announced-before-restart", "cancelled-before-announcing", "done"},
+					Bounds: "one IPv4 interface, host candidates, Restart after 0..8 (thorough 0..12) fair hand-overs, context bound 1, first 4 (thorough 6) free switches explored; a select with several ready cases is a choice point", MustReach: []string{"announced-before-restart", "cancelled-before-announcing", "completed-before-restart", "done"},
 					Cfg: func(c *HarnessCfg, tier int) {
 						c.GoPolicy = "explore"
 						c.ContextBound = 1
@@ -304,6 +313,15 @@ func allChecks() []CheckSpec {
 		{
 			ID: "C18",
 			Harnesses: []HarnessSpec{
+				{Fn: "verifC06ContinualGathering", Lemma: "(g) cycle control under continual gathering: the interface monitor belongs to the cycle that started it — after Restart (or Failed) a new address and a ticker tick make the ended cycle gather nothing: the gathering state stays New, no candidate appears without a GatherCandidates call; while the cycle lasts the monitor does gather a new address",
+					Bounds: "one IPv4 interface, a second one appearing after Restart/Failed, 2 ticker ticks, host candidates only; schedules with 0 preemptions and the first 2 free switches", MustReach: []string{"restart", "failed", "monitor-alive", "done"},
+					Cfg: func(c *HarnessCfg, tier int) {
+						c.GoPolicy = "explore"
+						c.ContextBound = tier
+						c.FreeChoiceBound = 2 + tier
+						c.MaxPaths = 2000000
+						c.MaxWallS = 1200
+					}},
 				{Fn: "verifC18IPv6Filter", Lemma: "isSupportedIPv6Partial and shouldFilterLocationTrackedIP equal independent bit-pattern predicates (IPv4-compatible ::/96, site-local fec0::/10; link-local fe80::/10, ff?2::/16)",
 					Bounds: "all 2^128 addresses (16 symbolic bytes)", MustReach: []string{"done"}},
 				{Fn: "verifC18LocalInterfaces", Lemma: "localInterfaces on a fake transport.Net returns exactly the eligible addresses (interface up, loopback setting, interface/IP filters, requested family with empty = all, not site-local); enumeration errors propagate",
@@ -447,6 +465,8 @@ func allChecks() []CheckSpec {
 					Bounds: "one rule, 0..2 external addresses, both modes, matching / not matching, three candidate types", MustReach: []string{"host", "srflx", "relay", "identity-mapping", "done"}},
 				{Fn: "verifC19Compile", Lemma: "end to end (real newAddressRewriteMapper + findExternalIPs): rules written as External/Local/Networks/Mode apply only to the address, IP family and networks they name — a catch-all to the family of its external addresses, an empty rule to every family its Networks allow and to no other, a Local rule to exactly that address; first explicit match wins, else the first catch-all; the winning rule's mode and addresses are returned",
 					Bounds: "2 host rules, each External in {none, IPv4, IPv6, both} x Local in {none, the IPv4 lookup address, the IPv6 one} x Networks in {all, IPv4 only, IPv6 only} x Mode; lookups for one IPv4 and one IPv6 address without interface (2592 rule sets, concrete text)", MustReach: []string{"matched", "unmatched", "empty-rule", "done"}},
+				{Fn: "verifC19CIDRNetworks", Lemma: "a catch-all scoped by CIDR and restricted by Networks, end to end (newAddressRewriteMapper + findExternalIPs): it applies to a local address iff the CIDR contains the address AND Networks allows its family — a CIDR never lifts a Networks restriction, an address outside the CIDR is untouched; with an empty External list 'applies' means drop",
+					Bounds: "1 rule: CIDR 10.0.0.0/24 or fd00::/64 x Networks none / IPv4-only / IPv6-only x External same-family address or empty; lookups inside and outside each CIDR, both families", MustReach: []string{"applies", "networks-exclude-the-CIDR's-family", "done"}},
 				{Fn: "verifC19Legacy", Lemma: "legacy NAT1To1IPs lists through the real validateLegacyNAT1To1IPs: rejected iff an entry is malformed or two catch-alls of the same IP family occur, whatever the order",
 					Bounds: "lists of 2..3 entries from a pool of 10 (IPv4/IPv6 catch-alls, external/local pairs, malformed, padded, empty), concrete text", MustReach: []string{"rejected", "accepted", "done"}},
 				{Fn: "verifC19Construct", Lemma: "newAddressRewriteMapper rejects invalid rule sets (bad IP, external with prefix, Local outside CIDR, bad CIDR, peer-reflexive type) and accepts valid ones; catch-alls never cross IP families",
@@ -569,6 +589,9 @@ func allChecks() []CheckSpec {
 		{
 			ID: "C20",
 			Harnesses: []HarnessSpec{
+				{Fn: "verifC06AddRemote", Lemma: "a renomination deferred on a not-yet-valid peer-reflexive pair survives the trickle of that candidate: the replacement pair keeps the deferred flag AND its nomination value (and id, state, selection), so the later success response still applies the value that was accepted",
+					Bounds: "2 local + 1 host + 1 prflx remote, symbolic pair states/flags and deferred values, selection nil/any, 6 candidate kinds", MustReach: []string{"supersedes-prflx", "done"},
+					Cfg: func(c *HarnessCfg, tier int) { c.GoRunMatch = "AddRemoteCandidate$1" }},
 				{Fn: "verifC20AcceptSequence", Lemma: "for any sequence of nominations the i-th is accepted iff it has no value or exceeds every accepted value; the stored maximum is the last accepted",
 					Bounds: "sequences of 3 (quick) / 4 (thorough) nominations, each valued (any 32-bit value) or plain", MustReach: []string{"done"}},
 				{Fn: "verifC20Controlled", Lemma: "controlled agent, one authenticated request: an accepted valued nomination on a valid pair selects it whatever the priorities, on a not-yet-valid pair it is deferred; a stale value changes neither selection, flags nor the stored maximum and is still answered",
@@ -622,6 +645,8 @@ func allChecks() []CheckSpec {
 					Bounds: "all 2^64 x 2^64 (local, remote) tie-breakers, both own roles, attribute kinds {none, controlling, controlled, both}, with/without USE-CANDIDATE; 1 local + 1 remote UDP candidate, full agent", MustReach: []string{"conflict", "487", "switch", "no-conflict", "unknown-source", "done"}},
 				{Fn: "verifC05Late487", Lemma: "the roles are settled by the requests alone: a correctly signed Binding error response (487 Role Conflict or 400) that answers an outstanding check, from the address the check went to, changes nothing at its receiver — role, selector, pairs, selection, transactions, liveness — so an agent that already gave way to the peer's conflicting request is not flipped back by the late 487 to a check it sent before",
 					Bounds: "both roles, any 64-bit tie-breaker, symbolic pair states, 96-bit transaction id, plain or USE-CANDIDATE check outstanding", MustReach: []string{"done"}},
+				{Fn: "verifC05RoleAtStart", Lemma: "the started role reaches the pairs that exist already: pairs formed while the agent still had its default role (candidates exchanged before Dial/Accept) compute their priority for the role the agent is started in — the value the peer computes for the mirrored pair",
+					Bounds: "1+1 candidates with any 31-bit priorities, started controlling or controlled, through the real startConnectivityChecks task", MustReach: []string{"started-controlling", "done"}},
 				{Fn: "verifC05Pairwise", Lemma: "two agents in the same role with distinct tie-breakers: exactly one of the two cross-handled requests makes its receiver switch",
 					Bounds: "all distinct 64-bit tie-breaker pairs, both same-role starts", MustReach: []string{"done"}},
 			},
@@ -664,6 +689,10 @@ func allChecks() []CheckSpec {
 					Bounds: "all 2^32 x 2^32 (g,d) >= 1, both roles", MustReach: []string{"done"}},
 				{Fn: "verifC17PairMonotone", Lemma: "pair priority is monotone in each argument; a higher min dominates",
 					Bounds: "all (g1,d1) <= (g2,d2) componentwise over 32-bit priorities", MustReach: []string{"done"}},
+				{Fn: "verifC05RoleConflict", Lemma: "the pair priority follows the role: through the real handleInbound/handleRoleConflict, pairs whose priority was read before a role switch report the formula's value for the NEW role afterwards (G and D swapped, tie bit included) — equal to what the peer computes for the mirrored pair",
+					Bounds: "1+1 candidates, both roles, all 2^64 x 2^64 tie-breaker pairs, symbolic pair states", MustReach: []string{"switch", "done"}},
+				{Fn: "verifC05RoleAtStart", Lemma: "the started role reaches the pairs that exist already: pairs formed while the agent still had its default role (candidates exchanged before Dial/Accept) compute their priority for the role the agent is started in — the value the peer computes for the mirrored pair",
+					Bounds: "1+1 candidates with any 31-bit priorities, started controlling or controlled, through the real startConnectivityChecks task", MustReach: []string{"started-controlling", "done"}},
 				{Fn: "verifC17Foundation", Lemma: "foundation equal iff (type, address, network type) equal, CRC-32 uninterpreted and assumed collision-free on the compared inputs",
 					Bounds: "address strings of length 0..2 (quick) / 0..4 (thorough), arbitrary bytes; all types and network types", MustReach: []string{"done"},
 					Cfg: func(c *HarnessCfg, tier int) { c.CRCInjective = true }},
